@@ -4,6 +4,7 @@ package main
 
 import (
 	"fmt"
+	"sort"
 	"strings"
 
 	"github.com/meshplus/bitxhub-model/pb"
@@ -41,7 +42,62 @@ func (n *node) route() *routeState {
 	return rs
 }
 
-func routeObs(n *node, h uint64) string {
+// routeCanon: what the subscription feed handed to the piers, in the canonical form the model prints too:
+// pier:[index/valid/batch,…]|[timed-out ids, sorted]|[one-to-many notifications, sorted] for every pier that got something
+func routeCanon(blk *pb.Block, got map[string]*pb.InterchainTxWrapper) string {
+	pos := map[string]int{}
+	for i, tx := range blk.Transactions.Transactions {
+		pos[tx.GetHash().String()] = i
+	}
+	var ps []string
+	for _, p := range sortedPiers(got) {
+		w := got[p]
+		if w == nil || (len(w.Transactions) == 0 && len(w.TimeoutIbtps) == 0 && len(w.MultiTxIbtps) == 0) {
+			continue
+		}
+		var vs []string
+		for _, vt := range w.Transactions {
+			i := -1
+			if vt != nil && vt.Tx != nil {
+				if j, ok := pos[vt.Tx.GetHash().String()]; ok {
+					i = j
+				}
+			}
+			vs = append(vs, fmt.Sprintf("%d/%d/%d", i, b2i(vt != nil && vt.Valid), b2i(vt != nil && vt.IsBatch)))
+		}
+		ps = append(ps, p+":["+strings.Join(vs, ",")+"]|["+strings.Join(sortedCopy(w.TimeoutIbtps), ",")+"]|["+strings.Join(sortedCopy(w.MultiTxIbtps), ",")+"]")
+	}
+	return strings.Join(ps, ";")
+}
+
+func sortedPiers(m map[string]*pb.InterchainTxWrapper) []string {
+	var ks []string
+	for k := range m {
+		ks = append(ks, k)
+	}
+	sort.Strings(ks)
+	return ks
+}
+
+// routeObs returns the verdict and the canonical form of what the feed delivered
+func routeObs(n *node, h uint64) (string, string) {
+	v, c := routeObs1(n, h)
+	return v, c
+}
+
+func routeObs1(n *node, h uint64) (verdict string, canon string) {
+	got := map[string]*pb.InterchainTxWrapper{}
+	var blkRef *pb.Block
+	defer func() {
+		if blkRef != nil {
+			canon = routeCanon(blkRef, got)
+		}
+	}()
+	verdict = routeObs0(n, h, got, &blkRef)
+	return
+}
+
+func routeObs0(n *node, h uint64, gotOut map[string]*pb.InterchainTxWrapper, blkOut **pb.Block) string {
 	rs := n.route()
 	if rs == nil {
 		return "norouter"
@@ -95,16 +151,26 @@ func routeObs(n *node, h uint64) string {
 		return ""
 	}
 	// the subscription feed
+	*blkOut = blk
 	rs.r.PutBlockAndMeta(blk, meta)
+	firstBad := ""
 	for _, p := range routePiers {
 		select {
 		case ws := <-rs.chs[p]:
-			if bad := check("push", p, ws); bad != "" {
-				return bad
+			if ws != nil && len(ws.InterchainTxWrappers) == 1 {
+				gotOut[p] = ws.InterchainTxWrappers[0]
+			}
+			if bad := check("push", p, ws); bad != "" && firstBad == "" {
+				firstBad = bad
 			}
 		default:
-			return "bad:push:" + p + ":nothing-sent"
+			if firstBad == "" {
+				firstBad = "bad:push:" + p + ":nothing-sent"
+			}
 		}
+	}
+	if firstBad != "" {
+		return firstBad
 	}
 	// a pier asking for the height again
 	for _, p := range routePiers {
